@@ -2,119 +2,183 @@ import LinfaSpec.Model.Proto
 import LinfaSpec.Model.Scalar
 import LinfaSpec.Model.KMeans
 
+/-!
+Driver of C09.  Every handler is written once for an arbitrary scalar carrying the core notation
+classes and a `Codec` (wire format, `sqrt`, `+∞`); it is instantiated at `Float` (requests without a
+`prec` key or with `prec=64`, 16-hex-digit floats) and at `Float32` (`prec=32`, 8-hex-digit floats),
+so the f32 instantiation of linfa's generic code is compared bit for bit with the same model.
+-/
 namespace LinfaSpec.Drv.C09
 open LinfaSpec.Proto LinfaSpec.KMeans
 
-abbrev Mat := List (List Float)
+local instance : NatCast Float32 := ⟨Float32.ofNat⟩
+
+/-- what the driver needs from the scalar besides the arithmetic classes -/
+structure Codec (α : Type) where
+  parse : String → Option α
+  /-- canonical NaN so that payload differences never show up -/
+  shw : α → String
+  sqrt : α → α
+  inf : α
+
+def codec64 : Codec Float :=
+  { parse := fun s => if s.length == 16 then parseF64 s else none
+    shw := showF64c
+    sqrt := Float.sqrt
+    inf := 1.0 / 0.0 }
+
+def codec32 : Codec Float32 :=
+  { parse := fun s => if s.length == 8 then parseF32 s else none
+    shw := fun x => if x.isNaN then "nan" else showF32 x
+    sqrt := Float32.sqrt
+    inf := 1.0 / 0.0 }
+
+section Generic
+variable {α : Type} [Add α] [Sub α] [Mul α] [Div α] [Neg α] [LT α] [DecidableLT α] [OfNat α 0]
+  [NatCast α] (cd : Codec α)
 
 /-- `Distance::rdistance` of the three metrics the harness uses -/
-def rdOf (metric : String) : Option (List Float → List Float → Float) :=
+def rdOf (metric : String) : Option (List α → List α → α) :=
   if metric == "l2" then some sqL2
   else if metric == "l1" then some l1
   else if metric == "linf" then some linf
   else none
 
 /-- `Distance::distance` on the two centroid matrices (one `Zip` over all cells, row-major) -/
-def distOf (metric : String) (a b : Mat) : Float :=
-  if metric == "l2" then Float.sqrt (sqL2 a.flatten b.flatten)
+def distOf (metric : String) (a b : List (List α)) : α :=
+  if metric == "l2" then cd.sqrt (sqL2 a.flatten b.flatten)
   else if metric == "l1" then l1 a.flatten b.flatten
   else linf a.flatten b.flatten
 
-def inf : Float := 1.0 / 0.0
-def ltInf (x : Float) : Bool := x < inf
+/-- rectangular -/
+def wellFormed (p : Nat) (m : List (List α)) : Bool := m.all (fun r => r.length == p)
 
-/-- rectangular, at least one column -/
-def wellFormed (p : Nat) (m : Mat) : Bool := m.all (fun r => r.length == p)
+def showMat (m : List (List α)) : String := showList2 cd.shw m
 
-def showMat (m : Mat) : String := showList2 showF64 m
-
-def showFitted (f : Option (Fitted Float)) : String :=
+def showFitted (f : Option (Fitted α)) : String :=
   match f with
   | none => "err"
-  | some f => s!"C={showMat f.centroids} n={showList toString f.counts} in={showF64c f.inertia}"
+  | some f => s!"C={showMat cd f.centroids} n={showList toString f.counts} in={cd.shw f.inertia}"
 
-structure Setup where
+structure Setup (α : Type) where
   metric : String
-  rd : List Float → List Float → Float
-  xs : Mat
+  rd : List α → List α → α
+  xs : List (List α)
   p : Nat
-  tol : Float
+  tol : α
 
-def setup (toks : List String) : Option Setup := do
+def argS (toks : List String) (key : String) : Option α := (arg toks key).bind cd.parse
+def argSs (toks : List String) (key : String) : Option (List α) :=
+  (arg toks key).bind (parseList cd.parse)
+def argSs2 (toks : List String) (key : String) : Option (List (List α)) :=
+  (arg toks key).bind (parseList2 cd.parse)
+
+def setup (toks : List String) : Option (Setup α) := do
   let metric ← arg toks "metric"
   let rd ← rdOf metric
-  let xs ← argF64s2 toks "X"
-  let tol ← argF64 toks "tol"
+  let xs ← argSs2 cd toks "X"
+  let tol ← argS cd toks "tol"
   let p := (xs.headD []).length
   if xs.isEmpty || p == 0 || !wellFormed p xs then none
   else some { metric, rd, xs, p, tol }
 
-def okInit (s : Setup) (k : Nat) (c : Mat) : Bool := c.length == k && k != 0 && wellFormed s.p c
+def okInit (s : Setup α) (k : Nat) (c : List (List α)) : Bool :=
+  c.length == k && k != 0 && wellFormed s.p c
 
-def conv (s : Setup) (a b : Mat) : Bool := distOf s.metric a b < s.tol
+def conv (s : Setup α) (a b : List (List α)) : Bool := distOf cd s.metric a b < s.tol
 
-def doFit (s : Setup) (k m : Nat) (inits : List Mat) : Option (Fitted Float) :=
-  fit s.rd (conv s) ltInf k s.xs m inits
+def doFit (s : Setup α) (k m : Nat) (inits : List (List (List α))) : Option (Fitted α) :=
+  fit s.rd (conv cd s) (fun x => x < cd.inf) k s.xs m inits
 
 def handleClosest (toks : List String) : Option String := do
   let metric ← arg toks "metric"
   let rd ← rdOf metric
-  let cs ← argF64s2 toks "C"
-  let x ← argF64s toks "x"
+  let cs ← argSs2 cd toks "C"
+  let x ← argSs cd toks "x"
   if cs.isEmpty || x.isEmpty || !wellFormed x.length cs then none else
   let r := closest rd cs x
-  some s!"ok {r.1} {showF64c r.2}"
+  some s!"ok {r.1} {cd.shw r.2}"
 
 def handleUpdate (toks : List String) : Option String := do
-  let cs ← argF64s2 toks "C"
-  let xs ← argF64s2 toks "X"
+  let cs ← argSs2 cd toks "C"
+  let xs ← argSs2 cd toks "X"
   let mem ← argNats toks "mem"
   let p := (cs.headD []).length
   if cs.isEmpty || p == 0 || !wellFormed p cs || !wellFormed p xs || mem.length != xs.length
      || mem.any (fun j => j ≥ cs.length) then none else
-  some ("ok " ++ showMat (updateCentroids cs xs mem))
+  some ("ok " ++ showMat cd (updateCentroids cs xs mem))
 
-/-- one fit from a precomputed matrix; then predict / transform on the training rows and on `Q` -/
+/-- one fit from a precomputed matrix; then every calling form of predict / transform on the
+training rows followed by `Q`: the matrix form, the one-observation form row by row, and
+`predict_inplace` on a caller-supplied buffer filled with `7`s -/
 def handleFit (toks : List String) : Option String := do
-  let s ← setup toks
-  let init ← argF64s2 toks "init"
+  let s ← setup cd toks
+  let init ← argSs2 cd toks "init"
   let m ← argNat toks "m"
-  let q ← argF64s2 toks "Q"
+  let q ← argSs2 cd toks "Q"
   if m == 0 || !okInit s init.length init || !wellFormed s.p q then none else
-  match doFit s init.length m [init] with
+  match doFit cd s init.length m [init] with
   | none => some "err"
   | some f =>
-    let a := assign s.rd f.centroids (s.xs ++ q)
-    some s!"ok {showFitted (some f)} pred={showList toString (a.map (·.1))} tr={showList showF64c (a.map (·.2))}"
+    let all := s.xs ++ q
+    let pr := predict s.rd f.centroids all
+    let p1 := all.map (predict1 s.rd f.centroids)
+    let pi := match predictInplace s.rd f.centroids all (List.replicate all.length 7) with
+      | some r => showList toString r
+      | none => "panic"
+    let tr := transform s.rd f.centroids all
+    some s!"ok {showFitted cd (some f)} pred={showList toString pr} pred1={showList toString p1} inplace={pi} tr={showList cd.shw tr}"
 
 /-- the whole trajectory: budgets `1..M` from the same initial matrix -/
 def handleTraj (toks : List String) : Option String := do
-  let s ← setup toks
-  let init ← argF64s2 toks "init"
+  let s ← setup cd toks
+  let init ← argSs2 cd toks "init"
   let mm ← argNat toks "M"
   if mm == 0 || !okInit s init.length init then none else
-  let parts := (List.range mm).map fun i => s!"m={i + 1} {showFitted (doFit s init.length (i + 1) [init])}"
+  let parts := (List.range mm).map fun i =>
+    s!"m={i + 1} {showFitted cd (doFit cd s init.length (i + 1) [init])}"
   some ("ok " ++ " ".intercalate parts)
 
 /-- restarts `1..R`: run `i` starts from `inits[i]` (observed through the hook) -/
 def handleRestarts (toks : List String) : Option String := do
-  let s ← setup toks
-  let inits ← (arg toks "inits").bind (parseList3 parseF64)
+  let s ← setup cd toks
+  let inits ← (arg toks "inits").bind (parseList3 cd.parse)
   let m ← argNat toks "m"
   let k ← argNat toks "k"
   if m == 0 || inits.isEmpty || !inits.all (okInit s k) then none else
   let rs := (List.range inits.length).map (· + 1)
-  let parts := rs.map fun r => s!"r={r} {showFitted (doFit s k m (inits.take r))}"
+  let parts := rs.map fun r => s!"r={r} {showFitted cd (doFit cd s k m (inits.take r))}"
   some ("ok " ++ " ".intercalate parts)
 
+/-- budget sweep with restarts: for every budget in `ms` one `fit` with **all** the restarts
+(`n_runs = inits.length`, the same initial matrices whatever the budget) -/
+def handleSweep (toks : List String) : Option String := do
+  let s ← setup cd toks
+  let inits ← (arg toks "inits").bind (parseList3 cd.parse)
+  let ms ← argNats toks "ms"
+  let k ← argNat toks "k"
+  if ms.isEmpty || ms.any (· == 0) || inits.isEmpty || !inits.all (okInit s k) then none else
+  let parts := ms.map fun m => s!"m={m} {showFitted cd (doFit cd s k m inits)}"
+  some ("ok " ++ " ".intercalate parts)
+
+def handleG (toks : List String) : Option String :=
+  match toks with
+  | "closest" :: rest => handleClosest cd rest
+  | "update" :: rest => handleUpdate cd rest
+  | "fit" :: rest => handleFit cd rest
+  | "traj" :: rest => handleTraj cd rest
+  | "restarts" :: rest => handleRestarts cd rest
+  | "sweep" :: rest => handleSweep cd rest
+  | _ => none
+
+end Generic
+
 def handle (toks : List String) : String :=
-  let r := match toks with
-    | "closest" :: rest => handleClosest rest
-    | "update" :: rest => handleUpdate rest
-    | "fit" :: rest => handleFit rest
-    | "traj" :: rest => handleTraj rest
-    | "restarts" :: rest => handleRestarts rest
-    | _ => none
+  let r := match arg toks "prec" with
+    | none => handleG codec64 toks
+    | some "64" => handleG codec64 toks
+    | some "32" => handleG codec32 toks
+    | some _ => none
   r.getD "bad-op"
 
 end LinfaSpec.Drv.C09
